@@ -150,7 +150,7 @@ func init() {
 			ngo := 1 + rng.Intn(4)
 			nrep := 5 + rng.Intn(40)
 			if thorough && ci%50 == 49 {
-				nrep = 5000 // the long history
+				nrep = 1500 // the long history
 				ngo = 4
 			}
 			closeConcurrently := ci%7 == 3
